@@ -1,4 +1,5 @@
 import Norad.Lemmas.Kerning
+import Norad.Generated.KernConsts
 import Std.Data.String.ToNat
 /-!
 # C15 — kerning groups are validated, and legacy kerning is upconverted faithfully
@@ -370,5 +371,49 @@ theorem decimal_no_ctl : ∀ c, ∀ ch ∈ decimal c, isCtl ch = false := by
 theorem upconvert_no_panic_decimal (g : Groups) (k : Kerning) (S : List Str)
     (hv : ∀ n ∈ keys g, validName n = true) : ∃ o, upconvertKerning decimal g k S = .ok o :=
   upconvert_no_panic decimal_injective decimal_no_ctl g k S hv
+
+/-! ## source-level tie
+
+`Generated.KernConsts` is regenerated from `src/groups.rs` / `src/upconversion.rs` of the checked tree on every
+run (`tools/extract_kern_consts.py`).  The theorems below are about what the code says NOW: a changed
+prefix, length test or side assignment makes them fail (a proof obligation that no longer checks),
+independently of whether the sampling meets an input that shows the difference. -/
+
+/-- **source_prefixes_match_model**: the literals of the source are the literals of the model — the two
+    kerning-group prefixes (in the validator, in the "already converted" tests and in the new names) and
+    the two legacy markers, each on the side the model puts it. -/
+theorem source_prefixes_match_model :
+    Generated.KernConsts.validatorPrefixes.map (·.1) = [pfx1, pfx2] ∧
+    Generated.KernConsts.skipPrefixes = [("first", pfx1), ("second", pfx2)] ∧
+    Generated.KernConsts.newNames = [("first", pfx1, mmkL), ("second", pfx2, mmkR)] ∧
+    Generated.KernConsts.knownLegacy = [(mmkL, "first"), (mmkR, "second")] := by decide
+
+/-- **source_prefix_only_test_matches_model**: the length every `starts_with(P) && len() == N` test of the
+    validator compares with is the byte length of its prefix (so the test means "the name is only the
+    prefix", `prefixOnly_iff`), and it is the model's 13. -/
+theorem source_prefix_only_test_matches_model :
+    ∀ e ∈ Generated.KernConsts.validatorPrefixes, e.2 = byteLen e.1 ∧ e.2 = 13 := by decide
+
+/-- the validator theorem restated with the prefixes of the source -/
+theorem source_validate_iff (g : Groups) :
+    validateGroups g = .ok () ↔
+      (∀ e ∈ g, e.1 ≠ [] ∧ ∀ p ∈ Generated.KernConsts.validatorPrefixes, e.1 ≠ p.1) ∧
+      ∀ p ∈ Generated.KernConsts.validatorPrefixes, (KernSpec.sideMembers p.1 g).Nodup := by
+  rw [validate_iff]
+  have h : Generated.KernConsts.validatorPrefixes.map (·.1) = [KernSpec.p1, KernSpec.p2] :=
+    source_prefixes_match_model.1
+  have hm : ∀ (P : Str → Prop), (∀ p ∈ Generated.KernConsts.validatorPrefixes, P p.1) ↔ (P KernSpec.p1 ∧ P KernSpec.p2) := by
+    intro P
+    have : (∀ p ∈ Generated.KernConsts.validatorPrefixes, P p.1) ↔
+        ∀ q ∈ Generated.KernConsts.validatorPrefixes.map (·.1), P q := by
+      simp only [List.mem_map, forall_exists_index, and_imp, forall_apply_eq_imp_iff₂]
+    rw [this, h]; simp
+  unfold KernSpec.ValidGroups
+  rw [hm (fun q => (KernSpec.sideMembers q g).Nodup)]
+  constructor
+  · rintro ⟨h1, h2, h3⟩
+    exact ⟨fun e he => ⟨(h1 e he).1, (hm (fun q => e.1 ≠ q)).2 (h1 e he).2⟩, h2, h3⟩
+  · rintro ⟨h1, h2, h3⟩
+    exact ⟨fun e he => ⟨(h1 e he).1, (hm (fun q => e.1 ≠ q)).1 (h1 e he).2⟩, h2, h3⟩
 
 end Kern
